@@ -23,6 +23,7 @@ func init() {
 }
 
 func runC01(ctx *Ctx) {
+	defer runScale(ctx, "scale", map[string]string{"mode": "deterministic"}, func(c *Case) error { return checkC01(ctx, c) })
 	n := ctx.N(4000, 40000)
 	for _, t := range ctx.types() {
 		t := t
@@ -100,6 +101,7 @@ func wideStream(md protoreflect.MessageDescriptor, n int) []byte {
 }
 
 func checkC01(ctx *Ctx, c *Case) error {
+	scaleBytes(c)
 	t, err := mustType(c.Type)
 	if err != nil {
 		return err
